@@ -60,6 +60,7 @@ class Recorder:
         self.gt: Optional[str] = None
         self.curv: List[Dict[str, Any]] = []             # curvature decisions + exact margin
         self.tie = False
+        self.ambiguous = False   # a keyed oracle returned two different values for one key
         self._cur_ls: Optional[Dict[str, Any]] = None
         self._fd_depth = 0
         self.contract: List[str] = []                    # oracle-contract violations observed
@@ -232,7 +233,10 @@ class Run:
                 rec.F[k] = "!" + _exc_name(e)
                 raise
             vv = complex(v) if np.iscomplexobj(v) else float(v)
-            rec.F[k] = fhex(vv.real if isinstance(vv, complex) else vv)
+            hv = fhex(vv.real if isinstance(vv, complex) else vv)
+            if k in rec.F and rec.F[k] != hv:
+                rec.ambiguous = True
+            rec.F[k] = hv
             return v
 
         kw["fun"] = f
@@ -246,14 +250,17 @@ class Run:
                 except BaseException as e:
                     rec.G[k] = "!" + _exc_name(e)
                     raise
-                rec.G[k] = vhex(np.atleast_1d(v))
+                hv = vhex(np.atleast_1d(v))
+                if k in rec.G and rec.G[k] != hv:
+                    rec.ambiguous = True
+                rec.G[k] = hv
                 return v
             kw["jac"] = g
         cb = kw.get("callback")
         if cb is not None:
             def cbw(xk, state):
                 rec.calls.append(("CB", pkey(xk)))
-                ent = {"xk": xk, "state": state, "nit": int(state.nit)}
+                ent = {"xk": xk, "state": state, "nit": int(state.nit), "pos": len(rec.calls) - 1}
                 rec.cb.append(ent)
                 try:
                     self._maybe_fault("CB")
@@ -268,7 +275,7 @@ class Run:
         if upd is not None:
             def updw(x, f0, f0_old, grad, X, G):
                 rec.calls.append(("UPD", pkey(x)))
-                ent = {"x": pkey(x)}
+                ent = {"x": pkey(x), "Xin": [np.array(v, copy=True) for v in X], "pos": len(rec.calls) - 1}
                 rec.upd.append(ent)
                 try:
                     self._maybe_fault("UPD")
@@ -277,7 +284,10 @@ class Run:
                     ent["ret"] = "!" + _exc_name(e)
                     raise
                 f0n, f0o, gradn, Gn = out
+                ent["out"] = (np.array(gradn, copy=True), [np.array(v, copy=True) for v in Gn])
                 ent["ret"] = f"{fhex(f0n)} {fhex(f0o)} {vhex(gradn)} {vshex(list(Gn))}"
+                if any(e2 is not ent and e2["x"] == ent["x"] and e2.get("ret") != ent["ret"] for e2 in rec.upd):
+                    rec.ambiguous = True
                 return out
             kw["update_fun_def"] = updw
         sc = kw.get("gradient_scaler")
@@ -346,6 +356,8 @@ class Run:
     def lines(self) -> Optional[List[str]]:
         """driver input for this run (None if the trace cannot be keyed unambiguously)"""
         kw, rec = self.kwargs, self.rec
+        if rec.ambiguous:
+            return None
         from lbfgsb.base import get_bounds
         x0 = np.asarray(kw["x0"], dtype=float)
         lb, ub = get_bounds(x0, kw.get("bounds"))
